@@ -52,8 +52,14 @@ def run(tier, seed):
     vlib.tlc_expect_violation("GRPCMux", "grpcmux_prefix_plugin.cfg", "MainAlive")
     vlib.tlc_expect_violation("GRPCMux", "grpcmux_f14_plugin_late.cfg", "FirstCallOK")
     vlib.tlc_expect_violation("GRPCMux", "grpcmux_f15_host_late.cfg", "Routing")
+    # the same protocol with each Run loop and knock() split at the hook points: the model recorded traces are validated against
+    runs += [vlib.tlc_expect_ok("GRPCMuxImpl", "grpcmuximpl_plugin_inwindow.cfg"), vlib.tlc_expect_ok("GRPCMuxImpl", "grpcmuximpl_host_inwindow.cfg")]
+    vlib.tlc_expect_violation("GRPCMuxImpl", "grpcmuximpl_prefix_plugin.cfg", "MainAlive")
+    vlib.tlc_expect_violation("GRPCMuxImpl", "grpcmuximpl_f14_plugin_late.cfg", "FirstCallOK")
+    vlib.tlc_expect_violation("GRPCMuxImpl", "grpcmuximpl_f15_host_late.cfg", "Routing")
     cases = make_cases(tier, rng)
     obs_list = g.run_and_judge(rep, cases, "c08", PROP, "c08")
+    rep.coverage["binding_selftest_mutations_rejected"] = g.mux_trace_selftest(obs_list, {c["name"]: c for c in cases}, "c08")
     rep.coverage.update({
         "states": sum(r["distinct"] for r in runs), "transitions": sum(r["generated"] for r in runs), "traces_validated_against_impl": len(obs_list),
         "evaluations": sum(len(c["ests"]) for c in cases),
